@@ -746,6 +746,7 @@ where
     pin_mut!(job_futures);
     {
         let mut seen: HashSet<RedoPathBuf> = HashSet::new();
+        let mut seen_ids: HashSet<i64> = HashSet::new();
         for i in target_order.iter().copied() {
             let t = targets[i].as_ref();
             if t.is_empty() {
@@ -785,6 +786,10 @@ where
                     "consider",
                     &format!("fid={} keep_going={} t={}", f.id(), ptx.state().env().keep_going, t),
                 );
+                if !seen_ids.insert(f.id()) {
+                    // Another spelling of a target we have already handled.
+                    continue;
+                }
                 let mut lock = ptx.state().new_lock(f.id().try_into().unwrap());
                 if ptx.state().env().unlocked {
                     lock.force_owned();
